@@ -224,7 +224,7 @@ var errCtxCause = errors.New("cause attached to the context (not the context's e
 
 func (wr *ccWaiterRec) satisfied(v int, cmp func(a, b int) bool) bool {
 	switch wr.kind {
-	case "value":
+	case "value", "nilvalidator":
 		return !cmp(0, v)
 	case "change":
 		return !cmp(wr.old, v)
@@ -269,7 +269,7 @@ func ccWaitersCase(c *mon.Case) {
 	})
 	defer mon.OnSite(verifhook.CContainerBlock, nil)
 	start := make(chan struct{})
-	kinds := []string{"value", "change", "empty", "validator", "validator"}
+	kinds := []string{"value", "change", "empty", "validator", "validator", "nilvalidator"}
 	for i := range waiters {
 		wr := &ccWaiterRec{id: i, kind: kinds[r.IntN(len(kinds))]}
 		switch r.IntN(4) {
@@ -317,6 +317,9 @@ func ccWaitersCase(c *mon.Case) {
 				wr.val, wr.err = ctr.WaitValueChange(wr.ctx, wr.old, errCh)
 			case "empty":
 				wr.err = ctr.WaitValueEmpty(wr.ctx, errCh)
+			case "nilvalidator":
+				// documented: a nil validator waits for a non-empty value
+				wr.val, wr.err = ctr.WaitValueWithValidator(wr.ctx, nil, errCh)
 			default:
 				wr.val, wr.err = ctr.WaitValueWithValidator(wr.ctx, func(v int) (bool, error) {
 					wr.writesAtVal.Store(writesDone.Load())
@@ -532,6 +535,10 @@ func ccWaitersCase(c *mon.Case) {
 	for _, wr := range waiters {
 		c.Count("waiter_returns_judged", 1)
 		if wr.err != nil {
+			if wr.val != 0 {
+				// a waiter returns only values that satisfy its condition; next to an error it returns the empty value
+				c.Violate("ccontainer", "waiter-value-with-error", "waiter %d (%s old=%d min=%d) returned the value %d together with the error %v; that value did not satisfy its condition", wr.id, wr.kind, wr.old, wr.minVal, wr.val, wr.err)
+			}
 			switch {
 			case wr.validatorEr != nil && wr.err == wr.validatorEr:
 			case wr.err == errDelivered:
